@@ -373,6 +373,19 @@ class CycleProbe:
         manager._queue_remotely = _queue_remotely
         manager._initialize_upload = _initialize_upload
 
+    def satisfied(self, dls: list, uls: list) -> bool:
+        return (self.cycles > 0 and all(id(t) in self.attempted for t in dls) and
+                (not uls or any(id(t) in self.attempted for t in uls)))
+
+    async def wait(self, dls: list, uls: list, bound: float):
+        """Up to ``bound`` virtual seconds; returns as soon as there is nothing left to wait for."""
+        loop = asyncio.get_running_loop()
+        end = loop.time() + bound
+        while loop.time() < end and not ((dls or uls) and self.satisfied(dls, uls)):
+            await asyncio.sleep(0.05)
+            if not dls and not uls and self.cycles > 0:
+                break
+
     def judge(self, V, obs: dict, dls: list, uls: list, bound: float, where: str):
         """``dls`` / ``uls``: what was eligible right after load_data()."""
         obs['startup_probes'] += 1
@@ -868,7 +881,7 @@ async def _run_sub(res: dict, rng: random.Random, base: str, plan: dict) -> dict
         except Exception as exc:  # noqa
             V(f'load-exception:{type(exc).__name__}', where='client.start(connect=False)', exc=repr(exc)[:300])
             return False
-        await asyncio.sleep(STARTUP_BOUND)
+        await probe.wait(elig.get('dls', []), elig.get('uls', []), STARTUP_BOUND)
         probe.judge(V, obs, elig.get('dls', []), elig.get('uls', []), STARTUP_BOUND, 'lists')
         await pc.stop()
         shutil.rmtree(pdir, ignore_errors=True)
@@ -1458,6 +1471,14 @@ def _run_crash(params: dict) -> dict:
             await w.call(name, h.client.login())
             announce(name, 2)
 
+        if pre_login > 0:
+            # like the real server, the scripted one does not serve a session that has not logged in
+            from aioslsk.protocol.messages import AddUser, CannotConnect, ConnectToPeer, GetPeerAddress
+
+            def not_logged_in(session, msg):
+                return not session.logged_in
+            for cls_ in (AddUser.Request, CannotConnect.Request, ConnectToPeer.Request, GetPeerAddress.Request):
+                w.server.overrides[cls_] = not_logged_in
         await asyncio.sleep(downtime)
         st['restarted'] = True
         for k, name in enumerate(victims):
